@@ -236,6 +236,8 @@ pub fn c03_shapes(thorough: bool, seed: u64) -> Vec<Shape> {
         Shape::new("equal_point_committed_twice", &[Commit, CommitDup, AllocMul, Con, ConCommitted], &[]),
         Shape::new("pending_allocation_then_closure_allocation", &[Commit, Alloc], &[&[Chal, Alloc, Con]]),
         Shape::new("empty_combination_first", &[Commit, AllocMul, ConEmpty, Con], &[]),
+        Shape::new("closure_with_constraints_only", &[Commit, AllocMul, Con], &[&[Chal, Con, ConCommitted]]),
+        Shape::new("gate_free_closure_with_constraints_only", &[Commit, Commit, ConCommitted], &[&[Chal, ConCommitted]]),
     ];
     if !thorough {
         let mut rng = rand_chacha::ChaChaRng::seed_from_u64(seed ^ 0xc03);
